@@ -367,7 +367,12 @@ def checkGetAccount (pid : String) (feat : Features) (s : RState) (q : RQuery) (
         sig := if !c17 then "C17:account-metadata-at-pit:not-the-fold-at-t" else if !c18 then "C18:first-usage-not-earliest-effective-timestamp" else "",
         note := if !c17 then s!"account {q.address}: metadata read at pit is not metaAt (fold of the writes dated ≤ pit)"
                 else if !c18 then s!"account {q.address}: first usage is not the earliest effective timestamp of the committed transactions involving it" else "" }
-    else mismatch pid q "account" (encAccount v) tags
+    else
+      let m := mismatch pid q "account" (encAccount v) tags
+      -- a failing predicate keeps its own stable signature
+      { m with prop := c17 && c18,
+               sig := if !c17 then "C17:account-metadata-at-pit:not-the-fold-at-t"
+                      else if !c18 then "C18:first-usage-not-earliest-effective-timestamp" else m.sig }
 
 def checkGetTransaction (pid : String) (feat : Features) (s : RState) (q : RQuery) (ans : Json) : Check :=
   let l := s.ledger
@@ -544,10 +549,13 @@ def stepAcc (pid : String) (feat : Features) (a : Acc) (j : Json) : Except Strin
       let c ← checkQuery pid feat a.s qj ans
       let first := a.agree && a.prop
       let bad := !(c.agree && c.prop)
+      -- the signature of the case: the first failing predicate if any (that is what known findings
+      -- are matched on), else the first disagreement
+      let firstProp := a.prop && !c.prop
       pure { a with answers := rest, agree := a.agree && c.agree, prop := a.prop && c.prop, nq := a.nq + 1,
-                    sig := if first && bad then c.sig else a.sig,
-                    note := if first && bad then s!"query #{a.nq}: {c.note}" else a.note,
-                    model := if first && bad then c.model else a.model,
+                    sig := if firstProp || (first && bad) then c.sig else a.sig,
+                    note := if firstProp || (first && bad) then s!"query #{a.nq}: {c.note}" else a.note,
+                    model := if firstProp || (first && bad) then c.model else a.model,
                     tags := a.tags ++ c.tags.filter (fun t => !a.tags.contains t) }
   | .error _ =>
     let op ← decStep j
